@@ -23,13 +23,13 @@ def contract_cfg(scn):
     return "SPECIFICATION %sSpec\nCONSTANTS\n  Scenarios = {}\n  Waits <- GenWaits\nVIEW view\n" % scn + PROPS
 
 
-def impl_cfg(scn, reset=True, outside=True):
+def impl_cfg(scn, reset=True, outside=True, timer=True):
     return ("SPECIFICATION I%sSpec\nCONSTANTS\n  Scenarios = {}\n  Waits <- GenWaits\n  ResetPerAttempt = %s\n  BreakerOutside = %s\n"
-            "VIEW iview\n" % (scn, str(reset).upper(), str(outside).upper())) + PROPS + "PROPERTIES Refines\n"
+            "  TimerAlways = %s\nVIEW iview\n" % (scn, str(reset).upper(), str(outside).upper(), str(timer).upper())) + PROPS + "PROPERTIES Refines\n"
 
 
 def vec_cfg(scn):
-    return ("SPECIFICATION V%sSpec\nCONSTANTS\n  Scenarios = {}\n  Waits <- GenWaits\n  ResetPerAttempt = TRUE\n  BreakerOutside = TRUE\n" % scn)
+    return ("SPECIFICATION V%sSpec\nCONSTANTS\n  Scenarios = {}\n  Waits <- GenWaits\n  ResetPerAttempt = TRUE\n  BreakerOutside = TRUE\n  TimerAlways = TRUE\n" % scn)
 
 
 TRACE_CFG = "SPECIFICATION TSpec\nCONSTANTS\n  Scenarios = {}\n  Waits = {}\nCONSTRAINT HWM\nPOSTCONDITION TraceAccepted\n" + PROPS
@@ -37,7 +37,8 @@ TRACE_CFG = "SPECIFICATION TSpec\nCONSTANTS\n  Scenarios = {}\n  Waits = {}\nCON
 
 def run(ctx):
     ctx.cov["rule"] = ("evaluations = scenarios (TLC-enumerated initial states of Resilience_Gen: retry policy x per-attempt outcome script x "
-                       "cancellation point x stream/buffered x breaker none/closed/open x pool time-out) run on the real Proxy; traces = "
+                       "cancellation point x stream/buffered x breaker none/closed/open x pool time-out x deadline of the client's own context "
+                       "none/later/earlier than the pool time-out) run on the real Proxy; traces = "
                        "scenarios whose recorded attempts, cancellation and final outcome were validated by TLC against the contract; "
                        "non-trivial = distinct scenarios in which the real pool made a second attempt, was cancelled, timed out, was "
                        "short-circuited or carried a stream")
@@ -45,7 +46,9 @@ def run(ctx):
                         "an attempt's outcome is what the Proxy documents: serverError/503, timeout/408, clientError/499, failureCode/<code>",
                         "real time only one-sided: the recorded gap between two calls is never shorter than the wait made; scenarios whose "
                         "timing could not be kept on a busy machine are discarded (counted), never judged",
-                        "the first attempt of a request is not a 'further' attempt: it is made even if the client is already gone"]
+                        "the first attempt of a request is not a 'further' attempt: it is made even if the client is already gone",
+                        "the expiry of a deadline that the client's own request context carries ends the client's request like a "
+                        "cancellation; whether that attempt is reported as timeout/408 or clientError/499 is left open"]
     from concurrent.futures import ThreadPoolExecutor
     with ThreadPoolExecutor(max_workers=1) as ex:
         mc = ex.submit(_mc, ctx) if ctx.phase("mc") else None
@@ -70,11 +73,14 @@ def _mc(ctx):
                                    label="negative control: per-attempt state not reset", expect_ok=False, count=False, workers=2),
             "neg-order": ex.submit(ctx.tlc_mc, "ResilienceImpl_MC", impl_cfg("Small", outside=False),
                                    label="negative control: breaker inside the retry loop", expect_ok=False, count=False, workers=2),
+            "neg-timer": ex.submit(ctx.tlc_mc, "ResilienceImpl_MC", impl_cfg("Small", timer=False),
+                                   label="negative control: pool time-out not armed when the client's context has a deadline",
+                                   expect_ok=False, count=False, workers=2),
         }
         res = {k: f.result() for k, f in jobs.items()}
     ctx.log("contract: %d distinct states (%.0fs); implementation layer: %d (%.0fs)"
             % (res["contract"].distinct, res["contract"].wall, res["impl"].distinct, res["impl"].wall))
-    for k in ("neg-reset", "neg-order"):
+    for k in ("neg-reset", "neg-order", "neg-timer"):
         if not res[k].violated:
             ctx.inconclusive("negative control %s was not rejected by TLC: %s" % (k, res[k].error))
 
@@ -131,7 +137,8 @@ def _describe(run, idx):
             why += ":" + last
     else:
         why = e["ev"]
-    return {"kind": "vector", "why": why, "retry": sc["retry"], "stream": sc["stream"], "cb": sc["cb"], "tmo": sc["tmo"]}
+    return {"kind": "vector", "why": why, "retry": sc["retry"], "stream": sc["stream"], "cb": sc["cb"], "tmo": sc["tmo"],
+            "cdl": sc.get("cdl", "none")}
 
 
 def _run_and_validate(ctx, vecs, tag, slow=1):
@@ -177,7 +184,21 @@ def _vectors(ctx):
         ctx.inconclusive("only %d scenario vectors exported" % len(allv))
     rng = random.Random(ctx.seed)
     k = 500 if ctx.quick else 100000        # thorough: every scenario
-    vecs = allv if len(allv) <= k else rng.sample(allv, k)
+    if len(allv) <= k:
+        vecs = allv
+    else:
+        # a sample, with every stratum (breaker open, deadline of the client's own, stream) represented
+        strata = {}
+        for v in allv:
+            strata.setdefault((v["cb"] == "open", v.get("cdl", "none"), v["stream"],
+                               "hang" in v["script"], "cdl" in v["script"]), []).append(v)
+        vecs, chosen = [], set()
+        for key in sorted(strata, key=str):
+            for v in rng.sample(strata[key], min(8, len(strata[key]))):
+                vecs.append(v)
+                chosen.add(jdump(v))
+        rest = [v for v in allv if jdump(v) not in chosen]
+        vecs += rng.sample(rest, max(0, k - len(vecs)))
     ctx.log("%d scenarios exported by TLC, %d run" % (len(allv), len(vecs)))
     ctx.cov["scenarios_total"] = len(allv)
     ctx.cov["scenarios_all_run"] = len(vecs) == len(allv)
@@ -190,7 +211,8 @@ def _vectors(ctx):
     badkeys = {jdump(r[0]["sc"]) for r, _i, _s in bad}
     ok = [r for r in good if jdump(r[0]["sc"]) not in badkeys]
     ctx.traces(len(ok))
-    stats = {"retried": 0, "cancelled": 0, "timeout": 0, "shortcircuit": 0, "stream": 0, "maxed": 0, "stopped": 0}
+    stats = {"retried": 0, "cancelled": 0, "timeout": 0, "shortcircuit": 0, "stream": 0, "maxed": 0, "stopped": 0,
+             "timeout_under_later_deadline": 0, "client_deadline_expired": 0}
     for r in ok:
         sc, fin = r[0]["sc"], r[-1]
         atts = [e for e in r if e["ev"] == "att"]
@@ -205,6 +227,10 @@ def _vectors(ctx):
             flags.append("cancelled")
         if fin.get("res") == "timeout":
             flags.append("timeout")
+        if sc.get("cdl") == "later" and any(e["ev"] == "ret" and e.get("k") == "hang" for e in r):
+            flags.append("timeout_under_later_deadline")
+        if any(e["ev"] == "ret" and e.get("k") == "cdl" for e in r):
+            flags.append("client_deadline_expired")
         if fin.get("res") == "shortCircuited":
             flags.append("shortcircuit")
         if sc["stream"]:
@@ -215,7 +241,7 @@ def _vectors(ctx):
             ctx.nontrivial({"sc": sc})
     ctx.log("validated %d scenarios: %s; %d tainted, %d rejected" % (len(ok), jdump(stats), len(tainted), len(bad)))
     ctx.cov["c10_stats"] = stats
-    need = ["retried", "cancelled", "timeout", "shortcircuit", "stream", "maxed"]
+    need = ["retried", "cancelled", "timeout", "shortcircuit", "stream", "maxed", "timeout_under_later_deadline", "client_deadline_expired"]
     if not bad and any(stats[x] == 0 for x in need):
         ctx.inconclusive("vacuous run: %s" % jdump(stats))
     if ok:
